@@ -405,7 +405,19 @@ func (r *replacer) getSubstitution(key string) string {
 		if !canLogRequest(r.request) {
 			return r.emptyValue
 		}
-		_, err := ioutil.ReadAll(r.request.Body)
+		// Reading the body to its end fills r.requestBody (NewReplacer made
+		// the body a tee). The handlers further down the chain still need the
+		// body when the placeholder is used in front of them (a header,
+		// rewrite or header_upstream rule): what was read ahead here is handed
+		// out again; the body's own end (EOF, a sticky error) follows it.
+		body := r.request.Body
+		ahead, err := ioutil.ReadAll(body)
+		if len(ahead) > 0 {
+			r.request.Body = struct {
+				io.Reader
+				io.Closer
+			}{io.MultiReader(bytes.NewReader(ahead), body), body}
+		}
 		if err != nil {
 			if err == ErrMaxBytesExceeded {
 				return r.emptyValue
